@@ -17,8 +17,13 @@ def tables : List (String → List String → Option String) := []
   ++ [Drv.table]
   ++ [Drv.monitorsTable]
   ++ [Drv.codecsTable]
+  ++ [Drv.codecsGenTable]
   ++ [Drv.TracksV1.specTable]
   ++ [Drv.T2.table]
+  ++ [Drv.C15.table]
+  ++ [Drv.TableApi.specTable]
+  ++ [Drv.T2Db.table]
+  ++ [Drv.pureTable]
 
 /-- Stateful groups, selected by a first line `#mode <name>`. -/
 def modes : List Mode := []
@@ -30,6 +35,9 @@ def modes : List Mode := []
   ++ [Drv.CratesV1Oracle.mode]
   ++ [Drv.CratesV1Explore.mode]
   ++ [Drv.T2.mode]
+  ++ [Drv.TableApi.mode]
+  ++ [Drv.T2Db.mode]
+  ++ Drv.C15.modes
 
 def dispatch (line : String) : String :=
   match tokens line with
